@@ -22,6 +22,11 @@ def iota (n : Nat) : List Int := (List.range n).map Int.ofNat
 theorem consts_are_java : toSpecConsts Gen.balancerConsts = Spec.javaConsts := by decide
 theorem mask_is_toPositive : Gen.balancerConsts.mask = 0x7fffffff ∧ Gen.refHashMask = 0x7fffffff := by decide
 
+/-- Atomicity facts (extracted on every run): `RoundRobin.balance` and `LeastBytes.Balance` run entirely
+under their mutex, so concurrent calls are serialised and the call-sequence theorems of §6/§7 apply to
+every interleaving.  (The mutex semantics itself is part of the trusted base.) -/
+theorem balance_bodies_atomic : Gen.rrBalanceAtomic = true ∧ Gen.lbBalanceAtomic = true := by decide
+
 /-! ## 1. What the Writer offers: `loadCachedPartitions` always returns `[0, …, n-1]` -/
 
 theorem loadCached_iota (cache : Option Nat) (n : Nat) : (loadCachedPartitions cache n).2 = iota n := by
